@@ -57,6 +57,37 @@ void h_drive(void) {
   __CPROVER_assert(0, "SENTINEL reachable");
 }
 #endif
+#ifdef DRIVE_incoro
+/* Audit item D4 - the same two emissions made from INSIDE a coroutine (drivers/c15_drive.cpp c15_drive_incoro): a producer coroutine, started
+ * the way async::detach() starts one (discarded suspend point -> runs under the ready queue), calls the collector twice and discards the
+ * returned suspend points (README generator; signal.h: "you can simply discard the result").  The listeners do nothing but re-await.
+ * Oracle = the property statement, unchanged: "delivered to every listener waiting at that moment ... each exactly once, with that value -
+ * and a listener that does nothing between signals except re-await the emitter misses none of them".
+ * The two clauses that the unchanged library violates carry the marker of the OPEN known finding C15-FINDING-emit-in-coroutine (the released
+ * listeners are only queued and read state::_cur_val when they run; no small repair - see units.py META); every other clause must hold. */
+void h_drive(void) {
+  int nlist; int in_v1 = nondet_unsigned(), in_v2 = nondet_unsigned(), in_by_ref = nondet_bool();      /* in_*: passed to the native replay (replay/c15_emit_in_coroutine.cpp) */
+  int v1 = in_v1, v2 = in_v2, by_ref = in_by_ref;
+  nlist = DRIVE_NLIST;
+  unsigned a0 = gh_allocs, f0 = gh_frees;
+  c15_drive_incoro(nlist, v1, v2, by_ref);
+  __CPROVER_assert(cv_exc_pending == 0, "no exception escapes");
+  __CPROVER_assert(LOG(3)->done == 1 && LOG(3)->other_exc == 0, "the emitting coroutine ran to its end exactly once");
+  for (int i = 0; i < 3; i++) {
+    if (i < nlist) {
+      __CPROVER_assert(LOG(i)->n >= 1, "a listener waiting at the moment of a collector call is released by it (resumed at least once)");
+      __CPROVER_assert(LOG(i)->n >= 1 ==> LOG(i)->vals[0] == v1, "C15-FINDING-emit-in-coroutine [with that value] the value a released listener obtains is the value of the collector call that released it (emitted from inside a coroutine, suspend point discarded)");
+      __CPROVER_assert(LOG(i)->n == 2 && LOG(i)->vals[1] == v2, "C15-FINDING-emit-in-coroutine [misses none] a listener that does nothing between signals except re-await the emitter receives every emitted value exactly once (emitted from inside a coroutine, suspend point discarded)");
+      __CPROVER_assert(LOG(i)->n <= 2, "no value is delivered more often than it was emitted");
+      __CPROVER_assert(LOG(i)->canceled == 1 && LOG(i)->done == 1 && LOG(i)->other_exc == 0, "after the last handle is gone a waiting listener is resumed with await_canceled_exception (exactly once)");
+    } else {
+      __CPROVER_assert(LOG(i)->n == 0 && LOG(i)->done == 0, "unused listener slot untouched");
+    } }
+  __CPROVER_assert(gh_allocs - a0 == gh_frees - f0, "everything allocated is released: coroutine frames (listeners, producer), the shared state");
+  __CPROVER_assert(gh_sg_made == 1 && gh_sg_disposed == 1 && gh_sg_released == 1, "one shared state, destroyed once, freed once");
+  __CPROVER_assert(0, "SENTINEL reachable");
+}
+#endif
 #ifdef CV_HAS_sp_make
 CV_SG_DEFINE_MAKE(sp_make, ALLOCV, st_ctor(obj))
 #endif
